@@ -28,8 +28,16 @@ class Ctx:
     def find(self, needle):
         return dump.find_bodies(self.dump_dir, needle)
 
-    def parse(self, needle):
+    def parse(self, needle, self_type=None):
         files = self.find(needle)
+        if self_type and len(files) > 1:
+            # several impls define a method of this name: pick the one whose receiver is `self_type`
+            keep = []
+            for f in files:
+                head = open(f, errors="replace").read(4000)
+                if re.search(r"\(_1: &(?:mut )?(?:[\w:]+::)?%s[,)<]" % re.escape(self_type), head):
+                    keep.append(f)
+            files = keep
         if len(files) != 1:
             return None, f"expected exactly one MIR body for '{needle}', found {len(files)}"
         fn = mir.parse_file(files[0])
@@ -38,12 +46,12 @@ class Ctx:
             return None, f"MIR parse problems in {needle}: {probs[:3]}"
         return fn, None
 
-    def load(self, needle, ghosts=None, k=None):
-        fn, err = self.parse(needle)
+    def load(self, needle, ghosts=None, k=None, self_type=None, watch=None):
+        fn, err = self.parse(needle, self_type)
         if fn is None:
             return None, err
         t0 = time.time()
-        E = sym.Evaluation(fn, self.structs, k=k if k is not None else self.k, ghosts=ghosts or {})
+        E = sym.Evaluation(fn, self.structs, k=k if k is not None else self.k, ghosts=ghosts or {}, watch=watch)
         self.functions.append(fn.name)
         self.stats.append({"fn": fn.name[-80:], "blocks": len(fn.blocks), "dag_nodes": len(E.order),
                            "calls": len(E.events), "statements": fn.total_statements,
